@@ -180,14 +180,14 @@ def run(sc):
       tarr = wp.array(np.full(nworld, tq, dtype=np.float32), dtype=float)
       if mjm.nu and r.random() < 0.5:
         a = int(r.integers(0, mjm.nu))
-        res = wp.zeros((nworld, 1), dtype=float)
+        res = wp.zeros(nworld, dtype=float)
         mjw.read_ctrl(m, d, a, tarr, interp, res)
         stats["evaluations"] += nworld
         stats["nontrivial"].append(sig + "|read_ctrl")
         for w in range(nworld):
           want = mujoco.mj_readCtrl(mjm, mjds[w], a, tq, interp if interp >= 0 else int(mjm.actuator_history[a, 1]))
-          if not close(res.numpy()[w, 0], want):
-            viol("read_matches_mujoco", "read_ctrl", {"world": w, "actuator": a, "t_query": tq, "now": float(d.time.numpy()[0]), "interp": interp, "got": float(res.numpy()[w, 0]), "want": float(want),
+          if not close(res.numpy()[w], want):
+            viol("read_matches_mujoco", "read_ctrl", {"world": w, "actuator": a, "t_query": tq, "now": float(d.time.numpy()[0]), "interp": interp, "got": float(res.numpy()[w]), "want": float(want),
                                                       "nsample": int(mjm.actuator_history[a, 0])})
             break
       elif mjm.nsensor:
